@@ -12,6 +12,7 @@ import (
 	"fmt"
 	"io"
 	"sort"
+	"sync"
 	"strings"
 
 	"github.com/kubewharf/kubebrain/pkg/storage"
@@ -125,6 +126,7 @@ type World struct {
 	OnCrash func(node int)
 	TSOFn   func(inner uint64) uint64
 	applySeq int
+	mu       sync.Mutex
 	TagFn    func(task string) interface{}
 }
 
@@ -185,6 +187,20 @@ func (h *Handle) yield(site string, key []byte) {
 // decide returns the effect of a planned or random fault for this call ("" = none).
 func (h *Handle) decide(op, class, task string) string {
 	w := h.W
+	w.mu.Lock()
+	defer w.mu.Unlock()
+	if holder, isTask := w.S.HoldsToken(); !holder {
+		if !isTask {
+			// an engine call from a goroutine the scheduler does not know: its order
+			// relative to other calls is not decided by the PRNG
+			w.S.AddHazard()
+		} else {
+			// a task that had blocked outside a yield (scan waiting for its workers) and was
+			// woken by the token holder's last action: runs in the same step, by construction
+			// after the holder's final access
+			w.Probes["engine-call-by-woken-task"]++
+		}
+	}
 	w.Calls[op]++
 	for _, f := range w.Plan {
 		if f.fired || !(f.Op == op || (f.Op == "anydel" && (op == "del" || op == "delcur"))) {
@@ -259,10 +275,13 @@ func (h *Handle) newEntry(call string, muts []Mut) *Entry {
 	task := h.taskName()
 	e := &Entry{Seq: len(w.GT), Task: task, Node: h.Node, Call: call, Muts: muts, EnterStep: w.S.StepNo(),
 		Class: w.classify(muts), ByRetry: strings.Contains(task, "retry.tick")}
+	w.mu.Lock()
 	if w.TagFn != nil {
 		e.Tag = w.TagFn(task)
 	}
+	e.Seq = len(w.GT)
 	w.GT = append(w.GT, e)
+	w.mu.Unlock()
 	return e
 }
 
